@@ -33,7 +33,7 @@ import (
 // probe is a *recipe*: the bytes are rebuilt from it for the hour the run observes.
 type probe struct {
 	Class   string   `json:"class"`
-	Kind    string   `json:"kind"` // junk | hs | low
+	Kind    string   `json:"kind"` // junk | hs | low | fill (Len direct TestAndSet calls with fresh random 16-byte values on the bridge's replay filter)
 	Seed    uint64   `json:"seed"`
 	Len     int      `json:"len,omitempty"`      // junk length
 	KeySeed string   `json:"key_seed,omitempty"` // hs: 32 bytes on which NewKeypair(true) succeeds at once
@@ -254,14 +254,28 @@ func runGroup(w *worker, g group, record bool) bool {
 	hour := o4h.Hour()
 	var earlier []built
 	type pending struct {
-		i   int
-		p   probe
-		b   built
-		st  []srvh.Step
-		res srvh.Result
+		i    int
+		p    probe
+		b    built
+		st   []srvh.Step
+		res  srvh.Result
+		fill bool
+		flen int
+		now  int64
 	}
 	var done []pending
 	for i, p := range g.Probes {
+		if p.Kind == "fill" {
+			// bring the real replay filter towards / to / beyond its capacity without 102400 handshakes
+			rnd := vlib.NewRng(p.Seed)
+			for k := 0; k < p.Len; k++ {
+				filter.TestAndSet(time.Now(), rnd.Bytes(16))
+			}
+			_, fl := replayfilter.VerifLen(filter)
+			earlier = append(earlier, built{})
+			done = append(done, pending{i: i, p: p, fill: true, flen: fl, now: srvh.NowNs()})
+			continue
+		}
 		b, err := buildProbe(w, id, p, hour, earlier)
 		if err != nil {
 			if record {
@@ -276,13 +290,22 @@ func runGroup(w *worker, g group, record bool) bool {
 		if res.Hour0 != hour || res.Hour1 != hour {
 			return false
 		}
-		done = append(done, pending{i, p, b, st, res})
+		done = append(done, pending{i: i, p: p, b: b, st: st, res: res})
 	}
 	if !record {
 		return true
 	}
 	// evaluate (the model is fed the same history in the same order)
 	for _, d := range done {
+		if d.fill {
+			n, how := w.srv.FacFill(fname, d.now, d.p.Len)
+			r.Count("class", "filter-fill("+how+")")
+			if n != d.flen {
+				violate("replay-filter-size-differs", "correspondence",
+					fmt.Sprintf("after %d direct TestAndSet calls with fresh values the replay filter holds %d entries, the model %d (%s)", d.p.Len, d.flen, n, how), g, d.i, w)
+			}
+			continue
+		}
 		p, res := d.p, d.res
 		evs := res.Conn.ModelEvents(hour)
 		m := w.srv.ConnRun(fname, res.StartNs, res.TapeUsed, evs)
@@ -642,6 +665,43 @@ func genGroup(rng *vlib.Rng) group {
 	return g
 }
 
+// genCapGroup: "or that replays one" with the replay filter at capacity. A few dummy MACs first (so
+// that the genuine handshake G is never the eldest entry), G, then the filter is filled by direct
+// TestAndSet calls to cap-2 / cap-1 / cap entries (plus up to two more at capacity, each evicting one
+// dummy), then fresh handshakes keep being answered and the replays of G and of them stay silent.
+func genCapGroup(rng *vlib.Rng, maxFilter int) group {
+	g := group{IdSeed: rng.U64()}
+	add := func(p probe) int { g.Probes = append(g.Probes, p); return len(g.Probes) - 1 }
+	valid := func(class string) int {
+		p := hsProbe(rng, class, vlib.Pick(rng, []int{0, 0, -1, 1}))
+		p.PadLen = rng.Range(77, 400)
+		p.Expect = "answered"
+		return add(p)
+	}
+	replay := func(of int) {
+		add(probe{Class: "replay@capacity", Kind: "hs", SameAs: of, SrvSeed: rng.U64(), Expect: "silent"})
+	}
+	const pre = 8
+	add(probe{Class: "fill", Kind: "fill", Seed: rng.U64(), Len: pre, SameAs: -1})
+	gi := valid("valid(before fill)")
+	level := vlib.Pick(rng, []int{maxFilter - 2, maxFilter - 1, maxFilter, maxFilter})
+	add(probe{Class: "fill", Kind: "fill", Seed: rng.U64(), Len: level - pre - 1, SameAs: -1})
+	if level == maxFilter {
+		if e := rng.Intn(3); e > 0 {
+			add(probe{Class: "fill", Kind: "fill", Seed: rng.U64(), Len: e, SameAs: -1})
+		}
+	}
+	fi := valid("valid@capacity")
+	replay(gi)
+	replay(fi)
+	f2 := valid("valid@capacity")
+	replay(f2)
+	if rng.Intn(2) == 0 {
+		replay(gi)
+	}
+	return g
+}
+
 func main() {
 	r = vlib.NewRun("C03")
 	for k, v := range obfs4.VerifConstants() {
@@ -686,6 +746,16 @@ func main() {
 	nGroups := r.Scale(60, 900)
 	for i := 0; i < nGroups; i++ {
 		groups = append(groups, genGroup(rng.Fork()))
+	}
+	// replay filter at capacity
+	maxFilter := 0
+	fmt.Sscan(replayfilter.VerifConstants()["maxFilterSize"], &maxFilter)
+	if maxFilter > 16 {
+		for i, n := 0, r.Scale(3, 16); i < n; i++ {
+			groups = append(groups, genCapGroup(rng.Fork(), maxFilter))
+		}
+	} else {
+		r.Notes["capacity_groups"] = "skipped: maxFilterSize constant missing or tiny"
 	}
 	// many bridge seeds: closeDelay as a function of the seed (one empty probe each)
 	nSeeds := r.Scale(300, 3000)
